@@ -105,6 +105,8 @@ where
 
     /// Returns the state with replaced with a new constraint store. The old store is dropped.
     pub fn with_cstore(mut self, cstore: ConstraintStore<U, E>) -> State<U, E> {
+        #[cfg(feature = "verif")]
+        let _scope = crate::verif::scope("with_cstore");
         let old_cstore = self.get_cstore();
         for c in old_cstore.iter() {
             self = self.take_constraint(c).0;
@@ -257,6 +259,8 @@ where
     /// constraints fail, `None` is returned. Otherwise the state is returned with an updated
     /// constraint store.
     pub fn run_constraints(mut self) -> SResult<U, E> {
+        #[cfg(feature = "verif")]
+        let _scope = crate::verif::scope("run_constraints");
         let mut constraints = self
             .cstore
             .iter()
@@ -299,6 +303,8 @@ where
     /// If the resulting intersection domain is non-zero, the
     /// substitution is not possible, the constraint fails and `None` is returned.
     fn process_extension_fd(mut self, extension: &SMap<U, E>) -> SResult<U, E> {
+        #[cfg(feature = "verif")]
+        let _scope = crate::verif::scope("process_extension_fd");
         let dstore = self.get_dstore();
         for (x, v) in extension.iter() {
             match dstore.get(x) {
